@@ -19,7 +19,7 @@ from .. import pipe as P
 from ..errors import AnalysisError
 from ..interp import Interp, explore
 from ..report import Check
-from ..values import ADict, AList, ASet, ClassInfo, EnumInt, ExtObj, ExtRef, FuncRef, Msg, MsgClass, Obj, SingleDispatch, SStr, Unknown
+from ..values import ADict, AList, ASet, ClassInfo, EnumInt, ExtObj, ExtRef, FuncRef, Msg, MsgClass, Obj, PyRaise, SingleDispatch, SStr, Unknown
 
 SANCTIONED_EXT_WRITES = {
     "rdflib.util.SUFFIX_FORMAT_MAP": "idempotent registration of the '.jelly' suffix at import time (outside any stream)",
@@ -129,6 +129,12 @@ def traces(chk: Check) -> None:
                 chk.ok(rm, name, None)
 
 
+def pipejob_first_diff(a: Any, b: Any) -> str:
+    from . import pipejob
+
+    return pipejob.first_diff(a, b)
+
+
 def interleaving(chk: Check) -> None:
     """Two independent workloads stepped alternately (generator steps / statement calls / a statement of one stream encoded
     while another stream is in the middle of a statement) must produce exactly what each produces alone."""
@@ -212,6 +218,10 @@ def interleaving(chk: Check) -> None:
                                 # a workload of a different shape, so that anything leaking between the streams shows on the wire
                                 st[0] = P.t_bnode(f"B{i}")
                                 st[2] = P.t_iri(f"B{i}.o") if i % 2 == 0 else P.t_lit(f"B{i}", "lang")
+                            if i == 2:
+                                # the two streams carry literals that some libraries treat as equal (language tags differing in
+                                # case only) but that are different on the wire: a cache shared between streams would mix them
+                                st[2] = ("lit", "chat", "en-GB" if tag == "A" else "en-gb", None)
                             stmts.append(tuple(st))
                         seqs[tag] = stmts
 
@@ -271,13 +281,24 @@ def interleaving(chk: Check) -> None:
                         fr = k.method(k.attr(s_, "flow"), "to_stream_frame")
                         if fr is not None:
                             acc.append(fr)
-                    return solo, {"A": freeze(fa), "B": freeze(fb)}
+                    # content oracle, independent of the solo runs (which share the process history with the interleaved ones):
+                    # what each interleaved stream wrote decodes, by the specification alone, to that stream's own input
+                    from .. import refdec
+
+                    content = {}
+                    for tag, acc in (("A", fa), ("B", fb)):
+                        ref = refdec.decode(it.schema, acc)
+                        content[tag] = (ref.errors[:1], pipejob_first_diff(freeze(P.unsplit(it, list(ref.items))), freeze(P.expected_items(seqs[tag], physical))))
+                    return solo, {"A": freeze(fa), "B": freeze(fb)}, content
 
                 inst = f"{integ} {'TripleStream' if physical == 1 else 'QuadStream'}: {mode}"
                 for it, out in explore(chk.program, scenario, max_paths=8, generic_strings=True):
                     chk.paths += 1
                     if out[0] != "ok":
                         chk.fail(rule, inst, f"pyjelly.serialize:{integ}:interleaved", f"streams that work alone fail when interleaved: {it.exc_class_name(out[1].exc)} at {out[1].site}")
+                    elif any(out[1][2][t][0] or out[1][2][t][1] for t in ("A", "B")):
+                        t = next(t for t in ("A", "B") if out[1][2][t][0] or out[1][2][t][1])
+                        chk.fail(rule, inst, f"pyjelly.serialize:{integ}:interleaved-content", f"with two streams alive in one process, stream {t} does not decode to its own input: {out[1][2][t][0] or out[1][2][t][1]}")
                     elif out[1][0] != out[1][1]:
                         which = [t for t in ("A", "B") if out[1][0][t] != out[1][1][t]]
                         chk.fail(rule, inst, f"pyjelly.serialize.encode:{'statement-scratch-state' if mode.startswith('statement of B') else 'stream-state'}:interleaved", f"the frames of stream {which} differ from what the same stream writes alone when another stream is driven {mode} (state shared between streams)")
@@ -428,6 +449,65 @@ def defaults(chk: Check) -> None:
                             chk.fail(rule, inst, f"{mod}.{v.name}:field-default:{fname}", f"dataclass field default {default!r} is a mutable object shared by all instances")
 
 
+def subclass_hooks(chk: Check) -> None:
+    """A user subclass of each library class is defined in the abstract program; the library's import-time containers
+    (module-level and class-level dicts/lists/sets) must keep every entry they had."""
+    rule = "C12.OWN.subclass-does-not-rewire"
+    prog = chk.program
+    mods = [m for m in sorted(prog.modules) if m not in ("pyjelly.jelly", "pyjelly.jelly.rdf_pb2")]
+    probe = Interp(prog)
+    targets = []
+    for mod in mods:
+        for name, v in probe.module_ns(mod).items():
+            if isinstance(v, ClassInfo) and v.module == mod and not v.is_enum and not v.is_namedtuple and not (v.dataclass and v.dataclass.get("frozen")):
+                targets.append((mod, name))
+
+    def snapshot(it: Interp) -> dict:
+        snap = {}
+        for mod in mods:
+            for name, v in it.module_ns(mod).items():
+                holders = [(f"{mod}.{name}", v)] if isinstance(v, (ADict, AList, ASet)) else []
+                if isinstance(v, ClassInfo) and v.module == mod:
+                    holders += [(f"{mod}.{name}.{an}", av) for an, av in v.attrs.items() if isinstance(av, (ADict, AList, ASet))]
+                for label, c in holders:
+                    if isinstance(c, ADict):
+                        snap[label] = (c, [(k, id(x)) for k, x in c.pairs])
+                    else:
+                        snap[label] = (c, [(i, id(x)) for i, x in enumerate(c.items)])
+        return snap
+
+    for mod, name in targets:
+        it = Interp(prog)
+        for m in mods:
+            it.module_ns(m)
+        base = it.module_ns(mod)[name]
+        before = snapshot(it)
+        node = ast.parse(f"class _JstatUserSubclass(_Base):\n    pass\n").body[0]
+        from ..interp import Env
+
+        env = Env({"_Base": base}, None, "jstat_user_module")
+        inst = f"class UserSubclass({mod}.{name})"
+        try:
+            it.make_class(node, env)
+        except PyRaise as pr:
+            chk.ok(rule, inst, {"refused": it.exc_class_name(pr.exc)}, nontrivial=False)
+            continue
+        after = snapshot(it)
+        changed = None
+        for label, (obj, entries) in before.items():
+            now = dict((repr(k), v) for k, v in after[label][1]) if label in after else {}
+            for k, v in entries:
+                if now.get(repr(k)) != v:
+                    changed = (label, k)
+                    break
+            if changed:
+                break
+        if changed:
+            chk.fail(rule, inst, f"{mod}.{name}.__init_subclass__:rewires:{changed[0]}", f"defining a subclass of {name} in user code replaces/removes the entry {changed[1]!r} of {changed[0]}: every stream created afterwards in this process is dispatched differently (state leaks across streams through an import-time table)")
+        else:
+            chk.ok(rule, inst, None, nontrivial=False)
+
+
 def syntactic_sweep(chk: Check) -> None:
     """Functions no scenario entered are swept syntactically for writes to import-time state."""
     rule = "C12.OWN.shared-objects.sweep"
@@ -447,6 +527,8 @@ def syntactic_sweep(chk: Check) -> None:
         for fn in ast.walk(tree):
             if not isinstance(fn, (ast.FunctionDef, ast.AsyncFunctionDef)):
                 continue
+            if fn.name in ("__init_subclass__", "__set_name__", "__class_getitem__"):
+                continue  # class-definition-time hooks: judged semantically by C12.OWN.subclass-does-not-rewire
             local_names = {a.arg for a in fn.args.args + fn.args.kwonlyargs + fn.args.posonlyargs}
             for n in ast.walk(fn):
                 if isinstance(n, ast.Assign):
@@ -514,3 +596,5 @@ def check(chk: Check) -> None:
     chk.part("fresh-state", lambda: fresh_state(chk))
     chk.part("defaults", lambda: defaults(chk))
     chk.part("sweep", lambda: syntactic_sweep(chk))
+    chk.rule("C12.OWN.subclass-does-not-rewire", "defining a user subclass of any library class leaves every import-time table entry of the library as it was (a class-definition hook may add entries, never replace or remove one)", floor=20)
+    chk.part("subclass-hooks", lambda: subclass_hooks(chk))
